@@ -249,6 +249,11 @@ func (c *Conn) writeFrame(ctx context.Context, fin bool, flate bool, opcode opco
 	}
 	defer c.writeFrameMu.unlock()
 
+	// Nothing but pings and pongs may follow a close frame (RFC 6455 section 5.5.1).
+	if c.closeSent && opcode != opPing && opcode != opPong {
+		return 0, net.ErrClosed
+	}
+
 	select {
 	case <-c.closed:
 		return 0, net.ErrClosed
@@ -267,6 +272,10 @@ func (c *Conn) writeFrame(ctx context.Context, fin bool, flate bool, opcode opco
 			err = fmt.Errorf("failed to write frame: %w", err)
 		}
 	}()
+
+	if opcode == opClose {
+		c.closeSent = true
+	}
 
 	c.writeHeader.fin = fin
 	c.writeHeader.opcode = opcode
